@@ -126,7 +126,7 @@ namespace Givaro {
     inline int BlocFreeList::search_binary( size_t sz )
     {
         if (sz <= 32)
-            return int(sz-1);
+            return (sz ? int(sz-1) : 0); // a request of 0 byte is served by the smallest bloc
         int max = BlocFreeList::lenTables-1; // -- last element in TabSize
         if (sz > BlocFreeList::TabSize[max])
             throw GivError("[GivaroMM]: unable to allocate this size of memory");
